@@ -18,7 +18,8 @@ fn healthy_conn(r: &mut Rng, nonce: &mut u64, port: u16, span_ms: u64) -> ConnPl
         let body = if r.chance(1, 3) { let k = r.usize_in(0, 300); Some(r.bytes(k)) } else { None };
         let w = WorkReq { nonce: *nonce, steps: r.range(0, 2) as u32, step_ms: r.range(0, 60), panic_at: 0, resp_bytes: *r.pick(&[0usize, 50, 2000]), body, chunked: None };
         *nonce += 1;
-        c.steps.push(Step::Send { data: Blob(w.bytes()), completes: Some(j) });
+        let bytes = if j + 1 == n && r.chance(1, 4) { w.bytes_with(true, false) } else { w.bytes() };
+        c.steps.push(Step::Send { data: Blob(bytes), completes: Some(j) });
         c.steps.push(Step::AwaitResponses { count: j + 1, max_ms: 60_000 });
         c.steps.push(Step::Sleep { ms: r.range(0, (span_ms / n as u64).min(20_000)) });
         c.reqs.push(w.plan());
